@@ -214,6 +214,12 @@ def run_shard(i, n, tier, seed, m):
         judge(case, m)
         if earlier is not None:
             rejudge_earlier(earlier, m)
+    cross(i, n, tier, seed, m)
+
+
+def cross(i, n, tier, seed, m):
+    """The same monitors watching other properties' workloads (see core.cross_workloads)."""
+    core.cross_workloads(m, DECIDING, ['C05', 'C10', 'C08'], tier, seed, i, n, 400 if tier == "quick" else 4000)
 
 
 def replay(rec, m):
